@@ -255,8 +255,13 @@ func (c *Cluster) mergeHosts(hosts []*Host) error {
 		return fmt.Errorf("host %s not found in system tables", c.currentEndpoint)
 	}
 
+	seen := make(map[string]struct{})
 	for _, host := range hosts {
 		key := host.Key()
+		if _, ok := seen[key]; ok {
+			continue // The system tables listed the host more than once
+		}
+		seen[key] = struct{}{}
 		if _, ok := existing[key]; ok {
 			delete(existing, key)
 		} else {
